@@ -58,6 +58,10 @@ TraceNext ==
   /\ l' = l + 1
   /\ LET r == Rec[l + 1] IN
        CASE r.ev = "reset" -> Reset /\ UNCHANGED <<bad5, bad6, f2, drift>>
+         \* the last references of a span released by several threads at once (RefCountRace): closed exactly once, each round
+         [] r.ev = "racedrop" ->
+              /\ UNCHANGED <<vars, sid, bad6, f2, drift>>
+              /\ bad5' = (IF r.closes = r.rounds /\ r.dup = 0 /\ r.missing = 0 /\ r.panics = 0 /\ ~("panic" \in DOMAIN r) THEN bad5 ELSE Append(bad5, l + 1))
          [] r.ev = "crash" -> UNCHANGED <<vars, sid>> /\ bad5' = Append(bad5, l + 1) /\ bad6' = Append(bad6, l + 1) /\ UNCHANGED <<f2, drift>>
          \* after an F2 hazard the real registries may be corrupted, and after a first disagreement the
          \* model no longer tracks the implementation: the rest of that history is not judged
